@@ -305,17 +305,6 @@ Record repr (st : bstate) (acc : list record) : Prop := mkRepr {
 Lemma repr_init : repr b_init [].
 Proof. constructor; reflexivity. Qed.
 
-Definition first_of (acc : list record) (r : record) : Z :=
-  match acc with [] => r_ts r | r0 :: _ => r_ts r0 end.
-Definition nonempty {A} (l : list A) : bool := match l with [] => false | _ => true end.
-
-(* the limit predicate of each implementation, on the bytes actually produced *)
-Definition refuses (i : impl) (c : cfg) (acc : list record) (r : record) : bool :=
-  let after := HEADER_SIZE + blen (region_of acc) + blen (frame (first_of acc r) r) in
-  match i with
-  | Py => nonempty acc && (c_batch_size c <? after)
-  | Cy => negb (r_offset r =? 0) && (c_batch_size c <=? after)
-  end.
 
 Lemma resize_exact n l : blen l = n -> resize n l = l.
 Proof.
@@ -430,18 +419,6 @@ Proof.
 Qed.
 
 (* ---- any sequence of appends ----------------------------------------------------------------- *)
-(* the accept/refuse pattern and the accepted records, computed from produced bytes only *)
-Fixpoint run_spec (i : impl) (c : cfg) (acc : list record) (rs : list record)
-  : list (option meta) * list record :=
-  match rs with
-  | [] => ([], acc)
-  | r :: rs' =>
-      if refuses i c acc r then
-        let (ms, a) := run_spec i c acc rs' in (None :: ms, a)
-      else
-        let (ms, a) := run_spec i c (acc ++ [r]) rs' in
-        (Some (mkMeta (r_offset r) (blen (frame (first_of acc r) r)) (r_ts r)) :: ms, a)
-  end.
 
 Lemma appends_run i c : forall rs st acc,
   repr st acc -> Forall valid_rec acc -> Forall valid_rec rs ->
@@ -511,23 +488,10 @@ Proof.
 Qed.
 
 (* ---- build, on a represented state --------------------------------------------------------------------- *)
-Definition hdr_first (i : impl) (acc : list record) : Z :=
-  match first_ts acc with Some t => t | None => unset_ts i end.
-Definition hdr_max (i : impl) (acc : list record) : Z :=
-  match max_ts acc with Some t => t | None => unset_ts i end.
 
-Section WithCodec.
+Section WithCodec0.
   Variable compress : Z -> bytes -> bytes.
-  Variable decompress : Z -> bytes -> option bytes.
-  Hypothesis codec_ok : forall c x, decompress c (compress c x) = Some x.
-
-  (* whether build() ends up sending the compressed payload *)
-  Definition uses_codec (i : impl) (c : cfg) (data : bytes) : bool :=
-    if c_codec c =? 0 then false
-    else match i with
-         | Py => negb (blen data <=? blen (compress (c_codec c) data))
-         | Cy => true
-         end.
+  Notation uses_codec := (uses_codec compress).
 
   Lemma land_codec c : 0 <= c_codec c <= 4 -> Z.land (c_codec c) CODEC_MASK = c_codec c.
   Proof.
@@ -570,23 +534,29 @@ Section WithCodec.
     rewrite !be_blen in H. exact H.
   Qed.
 
-  (* everything the two public theorems need, for a represented state *)
-  Lemma build_read i c s st acc :
-    repr st acc -> Forall valid_rec acc -> valid_cfg c -> valid_stamp s ->
+End WithCodec0.
+
+  (* the produced bytes: header fields, size, Length field *)
+  Lemma build_header compress i c st acc :
+    repr st acc -> Forall valid_rec acc -> valid_cfg c ->
     Z.of_nat (List.length acc) < TWO31 ->
     let b := build compress i c st in
     blen b < TWO31 ->
-    let use := uses_codec i c (region_of acc) in
+    let use := uses_codec compress i c (region_of acc) in
     let payload := if use then compress (c_codec c) (region_of acc) else region_of acc in
     let h := mkH 0 (blen b - 12) (-1) 2 (crc32c (skipn 21 b)) (attributes c use) (last_off acc)
                  (hdr_first i acc) (hdr_max i acc) (c_pid c) (c_pepoch c) (c_bseq c)
                  (Z.of_nat (List.length acc)) in
     read_header b = Some (h, payload)
-    /\ 61 <= blen b /\ signed_be (slice 8 12 b) = blen b - 12
-    /\ exists h', read_batch decompress (stamp s b) = Some (h', map (expect s) acc).
+    /\ blen b = 61 + blen payload /\ signed_be (slice 8 12 b) = blen b - 12
+    /\ int64 (hdr_first i acc) /\ int64 (hdr_max i acc).
   Proof.
-    intros Hrep Hacc (Hmagic & Hcodec & Hpid & Hpep & Hbseq) (Hbase & Hepoch & Hlat) Hnum b Hlen use payload h.
-    pose proof (build_repr i c st acc Hrep Hcodec) as Hb. cbv zeta in Hb.
+    intros Hrep Hacc (Hmagic & Hcodec & Hpid & Hpep & Hbseq) Hnum b Hlen use payload h.
+    assert (Hnum32 : int32 (Z.of_nat (List.length acc))) by (clear - Hnum; u31; lia).
+    assert (Hm1 : int32 (-1)) by (u31; lia).
+    assert (H064 : int64 0) by (u31; lia).
+    assert (Hi82 : int8 2) by (unfold int8; lia).
+    pose proof (build_repr compress i c st acc Hrep Hcodec) as Hb. cbv zeta in Hb.
     fold use in Hb. fold payload in Hb. fold b in Hb.
     pose proof (crc_region_len (attributes c use) (last_off acc) (hdr_first i acc) (hdr_max i acc)
                   (c_pid c) (c_pepoch c) (c_bseq c) (Z.of_nat (List.length acc)) payload) as Hrl.
@@ -596,6 +566,11 @@ Section WithCodec.
       as (_ & _ & _ & _ & Ha5).
     cbv zeta in Ha5. rewrite !Z.lor_0_r in Ha5. fold (attributes c use) in Ha5.
     pose proof (last_off_range acc Hacc) as Hlo.
+    assert (Hlo32 : int32 (last_off acc)) by (clear - Hlo; u31; lia).
+    assert (Ha16 : int16 (attributes c use)) by (clear - Ha5; u31; lia).
+    assert (Hlen32 : int32 (blen (crc_region (attributes c use) (last_off acc) (hdr_first i acc) (hdr_max i acc)
+                  (c_pid c) (c_pepoch c) (c_bseq c) (Z.of_nat (List.length acc)) payload) + 9))
+      by (clear - Hrl Hbl Hlen Hpl; u31; lia).
     assert (Hf : int64 (hdr_first i acc)).
     { unfold hdr_first. destruct (first_ts acc) as [t|] eqn:E.
       - pose proof (first_ts_range acc t Hacc E). u31. lia.
@@ -606,18 +581,50 @@ Section WithCodec.
       - destruct i; cbn; u31; lia. }
     assert (Hh : read_header b = Some (h, payload)).
     { rewrite Hb at 1.
-      rewrite read_header_assemble; try assumption; try (u31; lia); try (unfold int8; lia).
+      pose proof (read_header_assemble 0 (-1) (c_magic c) (attributes c use) (last_off acc)
+                    (hdr_first i acc) (hdr_max i acc) (c_pid c) (c_pepoch c) (c_bseq c)
+                    (Z.of_nat (List.length acc)) payload) as RH.
+      cbv zeta in RH. rewrite Hmagic in RH |- *. rewrite RH; [clear RH | assumption ..].
       assert (Hsk : skipn 21 b = crc_region (attributes c use) (last_off acc) (hdr_first i acc)
                 (hdr_max i acc) (c_pid c) (c_pepoch c) (c_bseq c) (Z.of_nat (List.length acc)) payload)
         by (rewrite Hb at 1; apply skipn_assemble).
-      subst h. rewrite Hsk, Hmagic, Hrl. replace (blen b - 12) with (40 + blen payload + 9) by lia.
+      subst h. rewrite Hsk, Hrl. replace (blen b - 12) with (40 + blen payload + 9) by lia.
       reflexivity. }
-    split; [exact Hh|]. split; [lia|]. split.
-    { rewrite Hb at 1. rewrite slice_8_12_assemble.
-      rewrite signed_be_be; [rewrite Hrl; lia | lia |].
-      rewrite Hrl. change (256 ^ Z.of_nat 4) with 4294967296. u31. lia. }
+    split; [exact Hh|]. split; [exact Hbl|]. split; [|split; assumption].
+    rewrite Hb at 1. rewrite slice_8_12_assemble.
+    rewrite signed_be_be; [rewrite Hrl; lia | lia |].
+    rewrite Hrl. change (256 ^ Z.of_nat 4) with 4294967296. u31. lia.
+  Qed.
+
+
+Section WithCodec.
+  Variable compress : Z -> bytes -> bytes.
+  Variable decompress : Z -> bytes -> option bytes.
+  Hypothesis codec_ok : forall c x, decompress c (compress c x) = Some x.
+  Notation uses_codec := (uses_codec compress).
+
+  (* what a consumer reads from the batch after the broker's stamping *)
+  Lemma build_read i c s st acc :
+    repr st acc -> Forall valid_rec acc -> valid_cfg c -> valid_stamp s ->
+    Z.of_nat (List.length acc) < TWO31 ->
+    let b := build compress i c st in
+    blen b < TWO31 ->
+    exists h', read_batch decompress (stamp s b) = Some (h', map (expect s) acc).
+  Proof.
+    intros Hrep Hacc Hc (Hbase & Hepoch & Hlat) Hnum b Hlen.
+    destruct (build_header compress i c st acc Hrep Hacc Hc Hnum Hlen) as (Hh & Hbl & _ & Hf & Hm).
+    fold b in Hh, Hbl.
+    destruct Hc as (Hmagic & Hcodec & Hpid & Hpep & Hbseq).
+    set (use := uses_codec i c (region_of acc)) in *.
+    set (payload := if use then compress (c_codec c) (region_of acc) else region_of acc) in *.
+    pose proof (blen_nonneg payload) as Hpl.
+    assert (Hbase64 : int64 (s_base s)) by (clear - Hbase; u31; lia).
+    assert (Hnum32 : int32 (Z.of_nat (List.length acc))) by (clear - Hnum; u31; lia).
+    assert (Hi82 : int8 2) by (unfold int8; lia).
+    pose proof (last_off_range acc Hacc) as Hlo.
+    assert (Hlo32 : int32 (last_off acc)) by (clear - Hlo; u31; lia).
     (* the stamped batch *)
-    unfold stamp. rewrite Hh. cbn [h_attrs h_last h_first h_max h_pid h_pepoch h_bseq h_num h_magic h].
+    unfold stamp. rewrite Hh. cbn [h_attrs h_last h_first h_max h_pid h_pepoch h_bseq h_num h_magic].
     set (L := match s_lat s with Some _ => TS_TYPE_MASK | None => 0 end).
     set (K := if s_control s then CONTROL_MASK else 0).
     assert (HL : L = 0 \/ L = 8) by (subst L; destruct (s_lat s); [right|left]; reflexivity).
@@ -631,7 +638,14 @@ Section WithCodec.
     pose proof (crc_region_len a' (last_off acc) (hdr_first i acc) mx
                   (c_pid c) (c_pepoch c) (c_bseq c) (Z.of_nat (List.length acc)) payload) as Hrl'.
     unfold read_batch.
-    rewrite read_header_assemble; try assumption; try (u31; lia); try (unfold int8; lia).
+    pose proof (read_header_assemble (s_base s) (s_epoch s) 2 a' (last_off acc)
+                  (hdr_first i acc) mx (c_pid c) (c_pepoch c) (c_bseq c)
+                  (Z.of_nat (List.length acc)) payload) as RH.
+    assert (Ha16' : int16 a') by (clear - Hb5; u31; lia).
+    assert (Hlen32' : int32 (blen (crc_region a' (last_off acc) (hdr_first i acc) mx
+                  (c_pid c) (c_pepoch c) (c_bseq c) (Z.of_nat (List.length acc)) payload) + 9))
+      by (clear - Hrl' Hbl Hlen Hpl; u31; lia).
+    cbv zeta in RH. rewrite RH; [clear RH | assumption ..].
     cbn [bind h_attrs h_num]. rewrite Hb1.
     assert (Hdata : (if (if use then c_codec c else 0) =? 0 then Some payload
                      else decompress (if use then c_codec c else 0) payload) = Some (region_of acc)).
@@ -651,8 +665,110 @@ Section WithCodec.
       rewrite read_msgs_frames; try assumption.
       2:{ pose proof (frames_length (r_ts r0) acc). lia. }
       f_equal. apply map_ext. intros r. unfold out_rec, expect. subst h'. cbn [h_attrs h_base h_max h_first].
-      rewrite Hb2. unfold hdr_first. rewrite Hfirst. subst L mx.
+      rewrite Hb2. unfold hdr_first. rewrite ?Hfirst. cbn [first_ts]. subst L mx.
       destruct (s_lat s); cbn [Z.eqb negb]; f_equal; lia. }
     rewrite Hrd. cbn [bind]. eexists. reflexivity.
   Qed.
 End WithCodec.
+
+(* ---- the public statements ---------------------------------------------------------------------- *)
+Lemma accepted_length rs : forall ms, (List.length (accepted rs ms) <= List.length rs)%nat.
+Proof.
+  induction rs as [|r rs IH]; intros ms; [cbn; lia|].
+  destruct ms as [|[m|] ms]; cbn [accepted List.length]; [lia| |]; specialize (IH ms); lia.
+Qed.
+
+Lemma appends_init i c rs : Forall valid_rec rs ->
+  let st := fst (appends i c b_init rs) in
+  let ms := snd (appends i c b_init rs) in
+  ms = fst (run_spec i c [] rs) /\ repr st (accepted rs ms) /\ Forall valid_rec (accepted rs ms).
+Proof.
+  intros Hrs.
+  destruct (appends_run i c rs b_init [] repr_init (Forall_nil _) Hrs) as (st' & Happ & Hrep & Hv & Hacc).
+  cbv zeta. rewrite Happ. cbn [fst snd]. cbn [app] in Hacc. rewrite <- Hacc. auto.
+Qed.
+
+Theorem v2_roundtrip (compress : Z -> bytes -> bytes) (decompress : Z -> bytes -> option bytes) :
+  (forall c x, decompress c (compress c x) = Some x) ->
+  forall i c s rs,
+    valid_cfg c -> valid_stamp s -> Forall valid_rec rs -> Z.of_nat (List.length rs) < TWO31 ->
+    let st := fst (appends i c b_init rs) in
+    let ms := snd (appends i c b_init rs) in
+    blen (build compress i c st) < TWO31 ->
+    exists h, read_batch decompress (stamp s (build compress i c st))
+              = Some (h, map (expect s) (accepted rs ms)).
+Proof.
+  intros Hcodec i c s rs Hc Hs Hrs Hn st ms Hlen.
+  destruct (appends_init i c rs Hrs) as (_ & Hrep & Hv). fold st ms in Hrep, Hv.
+  pose proof (accepted_length rs ms) as Hal.
+  exact (build_read compress decompress Hcodec i c s st (accepted rs ms) Hrep Hv Hc Hs
+              ltac:(lia) Hlen).
+Qed.
+
+(* the bytes of a built batch: size, Length field, every header field, CRC, payload *)
+Theorem v2_wellformed (compress : Z -> bytes -> bytes) :
+  forall i c rs,
+    valid_cfg c -> Forall valid_rec rs -> Z.of_nat (List.length rs) < TWO31 ->
+    let st := fst (appends i c b_init rs) in
+    let acc := accepted rs (snd (appends i c b_init rs)) in
+    let b := build compress i c st in
+    blen b < TWO31 ->
+    let use := uses_codec compress i c (region_of acc) in
+    let payload := if use then compress (c_codec c) (region_of acc) else region_of acc in
+    61 <= blen b /\ signed_be (slice 8 12 b) = blen b - 12 /\
+    read_header b =
+      Some (mkH 0 (blen b - 12) (-1) 2 (crc32c (skipn 21 b)) (attributes c use) (last_off acc)
+                (hdr_first i acc) (hdr_max i acc) (c_pid c) (c_pepoch c) (c_bseq c)
+                (Z.of_nat (List.length acc)), payload)
+    /\ validate_crc b = true.
+Proof.
+  intros i c rs Hc Hrs Hn st acc b Hlen use payload.
+  destruct (appends_init i c rs Hrs) as (_ & Hrep & Hv). fold st acc in Hrep, Hv.
+  pose proof (accepted_length rs (snd (appends i c b_init rs))) as Hal. fold acc in Hal.
+  destruct (build_header compress i c st acc Hrep Hv Hc ltac:(lia) Hlen) as (Hh & H61 & Hl & _).
+  fold b use in Hh, H61. fold payload in Hh, H61. fold b in Hl.
+  pose proof (blen_nonneg payload).
+  repeat split; try assumption; try lia.
+  unfold validate_crc. rewrite Hh. cbn [h_crc]. apply Z.eqb_refl.
+Qed.
+
+(* attribute bits of a built batch: codec bits as used, transactional bit as configured,
+   timestamp-type and control bits clear (those are the broker's) *)
+Theorem v2_attribute_bits c use : valid_cfg c ->
+  let a := attributes c use in
+  Z.land a CODEC_MASK = (if use then c_codec c else 0)
+  /\ (Z.land a TXN_MASK =? 0) = negb (c_txn c)
+  /\ Z.land a TS_TYPE_MASK = 0 /\ Z.land a CONTROL_MASK = 0 /\ 0 <= a < 32.
+Proof.
+  intros (_ & Hcodec & _) a.
+  destruct (attrs_bits (c_codec c) use (c_txn c) 0 0 Hcodec (or_introl eq_refl) (or_introl eq_refl))
+    as (H1 & H2 & H3 & H4 & H5).
+  cbv zeta in *. rewrite !Z.lor_0_r in *. fold (attributes c use) in *. fold a in H1, H2, H3, H4, H5.
+  repeat split; try assumption; try lia.
+  - apply Z.eqb_eq. exact H2.
+  - apply Z.eqb_eq. exact H4.
+  - subst a. unfold attributes.
+    assert (Hc : c_codec c = 0 \/ c_codec c = 1 \/ c_codec c = 2 \/ c_codec c = 3 \/ c_codec c = 4) by lia.
+    destruct Hc as [->|[->|[->|[->| ->]]]]; destruct use, (c_txn c); cbv; congruence.
+Qed.
+
+(* size(), the results of append() and the limit predicate, against the bytes produced *)
+Theorem v2_size_accounting (compress : Z -> bytes -> bytes) :
+  forall i c rs, Forall valid_rec rs ->
+    let st := fst (appends i c b_init rs) in
+    let ms := snd (appends i c b_init rs) in
+    let acc := accepted rs ms in
+    ms = fst (run_spec i c [] rs)
+    /\ size i st = HEADER_SIZE + blen (region_of acc)
+    /\ (0 <= c_codec c <= 4 -> uses_codec compress i c (region_of acc) = false ->
+        blen (build compress i c st) = size i st).
+Proof.
+  intros i c rs Hrs st ms acc.
+  destruct (appends_init i c rs Hrs) as (Hms & Hrep & Hv). fold st ms in Hms, Hrep, Hv. fold acc in Hrep, Hv.
+  split; [exact Hms|].
+  assert (Hsize : size i st = HEADER_SIZE + blen (region_of acc)).
+  { destruct Hrep as [Hbuf Hpos _ _ _ _]. unfold size. destruct i; rewrite ?Hpos, Hbuf; reflexivity. }
+  split; [exact Hsize|].
+  intros Hcodec Huse. rewrite (build_repr compress i c st acc Hrep Hcodec).
+  rewrite Huse. rewrite assemble_len, crc_region_len, Hsize. unfold HEADER_SIZE. lia.
+Qed.
